@@ -165,6 +165,35 @@ Theorem c09_shutdown_no_pool_admission : forall md5 chk c salt stream e db name,
 Proof. exact shutdown_no_pool_admission. Qed.
 Print Assumptions c09_shutdown_no_pool_admission.
 
+(** admin_only on EVERY path of client_entrypoint: whichever way the startup packet arrives (directly, after a
+    declined SSLRequest, inside an accepted TLS session) and whatever it and the rest of the stream contain, a
+    non-admin startup is refused with the administrator-command error before any challenge, lookup or server
+    contact; only what client_entrypoint said about TLS ('S' / 'N') precedes the error. *)
+Theorem c09_admin_only_refuses_all_paths : forall md5 chk c salt stream e pre payload rest name db,
+  startup_packet_of c e stream = Some (pre, payload, rest) ->
+  ident payload = IdOk name db -> is_admin_db db = false ->
+  let r := entry md5 chk c true salt stream e in
+  out r = Rejected WShuttingDown /\ replies r = pre ++ [RError EAdminOnly] /\ events r = [] /\ cache' r = cached e.
+Proof. exact admin_only_refuses_all_paths. Qed.
+Print Assumptions c09_admin_only_refuses_all_paths.
+
+(** Conversely, for every byte stream: while admin_only, a challenge or an admission happens only for a startup
+    packet naming an admin database. *)
+Theorem c09_admin_only_serves_only_admin_db : forall md5 chk c salt stream e,
+  let r := entry md5 chk c true salt stream e in
+  (is_admitted (out r) = true \/ exists s, In (RMd5Request s) (replies r)) ->
+  exists pre payload rest name db,
+    startup_packet_of c e stream = Some (pre, payload, rest) /\ ident payload = IdOk name db /\ is_admin_db db = true.
+Proof. exact admin_only_serves_only_admin_db. Qed.
+Print Assumptions c09_admin_only_serves_only_admin_db.
+
+(** The admin database is served exactly as without admin_only. *)
+Theorem c09_admin_only_admin_db_unaffected : forall md5 chk c salt payload rest e name db,
+  ident payload = IdOk name db -> is_admin_db db = true ->
+  startup md5 chk c true salt payload rest e = startup md5 chk c false salt payload rest e.
+Proof. exact admin_only_admin_db_unaffected. Qed.
+Print Assumptions c09_admin_only_admin_db_unaffected.
+
 (** Until the decision, the only server contacts are the pooler's own (an auth_query fetch on a
     connection it opens itself, the pool's validation) for a configured pool; nothing carries client
     bytes ([EvClientBytes] is what Client::handle does after admission). *)
@@ -349,4 +378,26 @@ Example ident_stops_at_empty_name :      (* user=alice NUL-name database=db1: da
 Proof. vm_compute. reflexivity. Qed.
 Example ident_empty_value :              (* user=alice database="" *)
   ident ([117;115;101;114;0]%N ++ alice ++ [0;100;97;116;97;98;97;115;101;0;0;0]%N) = IdOk alice [].
+Proof. vm_compute. reflexivity. Qed.
+
+(** admin_only inside TLS: the same login that is admitted over TLS is refused over TLS while shutting down,
+    after the 'S' and before any challenge; the admin database is still served over TLS *)
+Definition ex_cfg_tls : cfg :=
+  {| admin_user := admin_user ex_cfg; admin_password := admin_password ex_cfg; admin_auth := MD5; pools := pools ex_cfg; tls := true |}.
+Definition ssl_request : bytes := [0;0;0;8;4;210;22;47]%N.
+Example run_tls_admitted :
+  let r := entry md5 true ex_cfg_tls false ex_salt (ssl_request ++ ex_startup_alice_db1 ++ password_frame (pg_md5 md5 alice apw ex_salt)) ex_env in
+  out r = PoolAdmitted db1 alice /\ replies r = [RTlsYes; RMd5Request ex_salt; RAuthOk; RParamStatuses; RBackendKeyData; RReadyForQuery].
+Proof. vm_compute. repeat split. Qed.
+Example run_tls_shutdown :
+  let r := entry md5 true ex_cfg_tls true ex_salt (ssl_request ++ ex_startup_alice_db1 ++ password_frame (pg_md5 md5 alice apw ex_salt)) ex_env in
+  out r = Rejected WShuttingDown /\ replies r = [RTlsYes; RError EAdminOnly] /\ events r = [].
+Proof. vm_compute. repeat split. Qed.
+Example run_declined_ssl_shutdown :
+  let r := entry md5 true ex_cfg true ex_salt (ssl_request ++ ex_startup_alice_db1 ++ password_frame (pg_md5 md5 alice apw ex_salt)) ex_env in
+  out r = Rejected WShuttingDown /\ replies r = [RTlsNo; RError EAdminOnly].
+Proof. vm_compute. repeat split. Qed.
+Example run_tls_admin_while_shutdown :
+  out (entry md5 true ex_cfg_tls true ex_salt (ssl_request ++ ex_startup_admin_db ++ password_frame (pg_md5 md5 (admin_user ex_cfg) (admin_password ex_cfg) ex_salt)) ex_env)
+  = AdminAdmitted.
 Proof. vm_compute. reflexivity. Qed.
